@@ -71,8 +71,12 @@ def seeded():
     if not rows:
         return "(no seeded changes recorded yet)"
     out = ["Changes were written by fresh sub-agents that saw only the property text and a scratch worktree of `/repo` "
-           "(nothing from `/verif`); each compiles and passes the test files its author ran.  Applied with "
-           "`git -C /repo apply seeded/<id>/patch.diff`, checked, undone with `git -C /repo checkout -- .`.\n",
+           "(nothing from `/verif`); each compiles and passes the test files its author ran (six round-3 changes whose "
+           "author was stopped for time are marked in the verdict column).  Three rounds: ids `CxxA/B` (round 1), `CxxA2/B2` "
+           "(round 2, 'less obvious places'), `CxxA3/B3` (round 3, authors also given the list of ideas already used).  Each is "
+           "run against a scratch clone with `tools/seedtest.sh seeded/<id>/patch.diff <property>`; `/repo` itself is never "
+           "touched.  The whole set (115 changes + 40 behaviour-preserving refactorings) was re-run after the last engine "
+           "change of each round.\n",
            "| seeded change | property | what it breaks | quick check verdict | failing obligation(s) |",
            "|---|---|---|---|---|"]
     for m in rows:
